@@ -19,6 +19,7 @@ var monitors = map[string]func(*core.Child){
 	"c11": idlmon.C11,
 	"c07": idlmon.C07,
 	"c09": idlmon.C09,
+	"c08": idlmon.C08,
 }
 
 func main() { core.ChildMain(monitors) }
